@@ -142,7 +142,7 @@ fn rows_of(a: Actual) -> Result<Vec<Row>, String> {
 }
 
 pub fn is_missing_table_error(e: &str) -> bool {
-    e.contains("not found") || e.contains("failed to create query plan") || e.contains("does not exist")
+    (e.contains("table '") && e.contains("not found")) || e.contains("failed to create query plan") || e.contains("does not exist")
 }
 
 pub fn live_obs(live: &Live, s: usize, plan: &QPlan) -> QObs {
